@@ -180,13 +180,14 @@ def parse_coq_lists(txt):
     """Parse the printed `= [:: [:: ints]; ...] : seq (seq Z)` into a list of lists of ints."""
     body = txt[txt.index("=") + 1: txt.rindex(":")]
     body = body.replace("[::", "[").replace(";", ",")
+    body = re.sub(r":\s*list\s*\(list\s*Z\)\s*$", "", body)
     body = re.sub(r"%[A-Za-z_]+", "", body)
     body = re.sub(r"\(\s*(-?\d+)\s*\)", r"\1", body)
     body = re.sub(r"\s+", " ", body).replace("[ ]", "[]")
     return json.loads(body)
 
 
-def run_model(terms, workdir, extra_imports="", shard=25, jobs=16, timeout=900):
+def run_model(terms, workdir, extra_imports="", shard=25, jobs=16, timeout=900, header=None, ctype="seq Z", lst=("[:: ", "]")):
     """Evaluate every Coq term (of type seq Z) with vm_compute; returns a list of int lists.
     A term whose evaluation fails is returned as None (with the error text in errors)."""
     os.makedirs(workdir, exist_ok=True)
@@ -195,11 +196,11 @@ def run_model(terms, workdir, extra_imports="", shard=25, jobs=16, timeout=900):
         chunk = terms[s:s + shard]
         p = os.path.join(workdir, "cases_%03d.v" % (s // shard))
         with open(p, "w") as f:
-            f.write(HEADER % extra_imports)
+            f.write((header or HEADER) % extra_imports)
             for k, t in enumerate(chunk):
-                f.write("Definition c%d : seq Z := %s.\n" % (k, t))
+                f.write("Definition c%d : %s := %s.\n" % (k, ctype, t))
             f.write("Local Open Scope Z_scope.\n")
-            f.write("Eval vm_compute in [:: %s].\n" % "; ".join("c%d" % k for k in range(len(chunk))))
+            f.write("Eval vm_compute in %s%s%s.\n" % (lst[0], "; ".join("c%d" % k for k in range(len(chunk))), lst[1]))
         paths.append((p, len(chunk)))
     out = [None] * len(terms)
     errors = []
